@@ -40,6 +40,9 @@ func pkgsOfKeys(keys []string) []string {
 	var out []string
 	for _, k := range keys {
 		p := k
+		if strings.HasPrefix(k, "lemma:") {
+			continue
+		}
 		if i := strings.Index(k, "#"); i >= 0 {
 			p = k[:i]
 		}
@@ -70,7 +73,12 @@ func main() {
 		os.MkdirAll(opts.workdir, 0o755)
 		bad := 0
 		for _, k := range keys {
-			r := verifyFunction(P, k, opts)
+			var r *FnResult
+			if strings.HasPrefix(k, "lemma:") {
+				r = verifyLemma(P, strings.TrimPrefix(k, "lemma:"), opts)
+			} else {
+				r = verifyFunction(P, k, opts)
+			}
 			bad += printFnResult(r, *v, *only)
 		}
 		if bad > 0 {
@@ -139,7 +147,7 @@ func printFnResult(r *FnResult, verbose bool, only string) int {
 		}
 		if o.Status != "proved" {
 			bad++
-			fmt.Printf("   %-8s %s  [%s %.2fs] %s\n      at %s  %s\n", strings.ToUpper(o.Status), o.Name, o.Solver, o.Time, o.Detail, o.PosStr, o.Script)
+			fmt.Printf("   %-8s %s  [%s %.2fs] %s\n      at %s  %s\n", strings.ToUpper(o.Status), o.Name, o.Solver, o.Wall, o.Detail, o.PosStr, o.Script)
 		} else if verbose {
 			fmt.Printf("   ok       %s  [%s %.2fs]\n", o.Name, o.Solver, o.Time)
 		}
